@@ -21,7 +21,12 @@ threx_build() {
     for f in $THREX_FILES; do [ "$v" = "$REPO/$f" ] && hit=1; done
     [ $hit = 0 ] && pairs+=("$p")
   done
-  vbuild threx "${pairs[@]}"; local rc=$?
+  local rc=0
+  [ -z "$THREX_SKIPMAIN" ] && { vbuild threx "${pairs[@]}"; rc=$?; }
+  # the same sources once more with the race detector, for the free-running pass
+  if [ $rc = 0 ] && [ -z "$THREX_NORACE" ]; then
+    VBUILD_FLAGS=-race VBUILD_OUT=threx-race vbuild threx "${pairs[@]}" || { echo "note: -race build failed, the free-running pass is skipped" >&2; rm -f $VERIF/bin/threx-race; }
+  fi
   rm -rf $tmpd
   return $rc
 }
